@@ -435,7 +435,7 @@ func init() {
 			}
 		}})
 
-	register(&Rule{ID: "C14.warmup", Props: []string{"C14", "C13"}, Floor: 5,
+	register(&Rule{ID: "C14.warmup", Props: []string{"C14", "C13", "C09", "C10"}, Floor: 5,
 		Doc: "RewardsStarted gates reward split, claim and initialisation, and means t >= start",
 		Run: func(e *Engine, r *RuleRun) {
 			if fn := r.Need("types.AllianceAsset.RewardsStarted"); fn != nil {
@@ -460,17 +460,17 @@ func init() {
 								c := fa.Term(iff.Cond)
 								gt := c.IsCall("time.Time.After") && c.Args[0].String() == "$blockTime" && strings.HasSuffix(c.Args[1].String(), ".RewardStartTime")
 								eq := other.IsCall("time.Time.Equal") && other.Args[0].String() == "$blockTime" && strings.HasSuffix(other.Args[1].String(), ".RewardStartTime")
-								gt2 := other.IsCall("time.Time.After") && other.Args[0].String() == "$blockTime"
-								eq2 := c.IsCall("time.Time.Equal") && c.Args[0].String() == "$blockTime"
+								gt2 := other.IsCall("time.Time.After") && other.Args[0].String() == "$blockTime" && strings.HasSuffix(other.Args[1].String(), ".RewardStartTime")
+								eq2 := c.IsCall("time.Time.Equal") && c.Args[0].String() == "$blockTime" && strings.HasSuffix(c.Args[1].String(), ".RewardStartTime")
 								ok = (gt && eq) || (gt2 && eq2)
 							}
 						}
 					} else {
 						t := fa.Term(v)
-						if t.Op == "unop" && t.Name == "!" && t.Args[0].IsCall("time.Time.Before") && t.Args[0].Args[0].String() == "$blockTime" {
+						if t.Op == "unop" && t.Name == "!" && t.Args[0].IsCall("time.Time.Before") && t.Args[0].Args[0].String() == "$blockTime" && strings.HasSuffix(t.Args[0].Args[1].String(), ".RewardStartTime") {
 							ok = true
 						}
-						if t.Op == "binop" && t.Name == ">=" && t.Args[0].IsCall("time.Time.Compare") && t.Args[0].Args[0].String() == "$blockTime" {
+						if t.Op == "binop" && t.Name == ">=" && t.Args[0].IsCall("time.Time.Compare") && t.Args[0].Args[0].String() == "$blockTime" && strings.HasSuffix(t.Args[0].Args[1].String(), ".RewardStartTime") {
 							ok = true
 						}
 					}
